@@ -313,6 +313,40 @@ def sampling_leaves_matrix_parameters_intact(c, layout):
         c.eq(f'{param}:joint_log_density_unchanged', J.logd(x=xv, y=xv + 1), j0, tol=1e-12)
 
 
+def lazily_named(c):
+    """distributions WITHOUT an explicit name (the library default: the random variable is named after the Python variable the original is bound to, found
+    lazily on first use): every object derived from the original by conditioning - including the constant left when nothing remains to condition on -
+    carries the original's name, whatever was (or was not) done to the original before; bounded stand-in (native)"""
+    from cuqi.density import EvaluatedDensity
+    n = 2
+    v = np.array([c.real('v0'), c.real('v1')]); sv = 1.0 + abs(c.real('s'))
+    # (a) directly, on a fresh original whose name was never looked up
+    x = Gaussian(np.zeros(n), cov=lambda s: s)
+    fixed = x(s=sv, x=v)
+    c.holds('direct:fully_conditioned_object_is_a_constant_density', isinstance(fixed, EvaluatedDensity), note=type(fixed).__name__)
+    c.holds('direct:constant_keeps_the_name_of_its_original', fixed.name == 'x', note=str(fixed.name))
+    c.holds('direct:original_keeps_its_name', x.name == 'x', note=str(x.name))
+    # (b) the same call with and without an unrelated earlier name lookup
+    a = Gaussian(np.zeros(n), cov=lambda s: s); b = Gaussian(np.zeros(n), cov=lambda s: s)
+    _ = b.name
+    fa = a(s=sv, a=v); fb = b(s=sv, b=v)
+    c.holds('history:name_of_the_constant_does_not_depend_on_an_earlier_lookup', (fa.name, fb.name) == ('a', 'b'), note=f"{fa.name} {fb.name}")
+    c.eq('history:value_of_the_constant_does_not_depend_on_an_earlier_lookup', fa.logd(), fb.logd())
+    # (c) staged: hyper-parameter first, the original used in a joint afterwards, the copy evaluated last
+    hyp = Gamma(2.0, 3.0); z = Gaussian(np.zeros(n), cov=lambda hyp: hyp)
+    z_h = z(hyp=sv)
+    J = JointDistribution(hyp, z)
+    c.holds('staged:joint_built_from_the_originals_names_them', J.get_parameter_names() == ['hyp', 'z'], note=str(J.get_parameter_names()))
+    const = z_h(z=v)
+    c.holds('staged:conditioned_copy_keeps_the_name', z_h.name == 'z', note=str(z_h.name))
+    c.holds('staged:constant_derived_from_the_copy_keeps_the_name', const.name == 'z', note=str(const.name))
+    # (d) through a likelihood
+    w = Gaussian(np.zeros(n), cov=lambda t: t)
+    Lw = w.to_likelihood(v)
+    cw = Lw(t=sv)
+    c.holds('likelihood:constant_left_by_a_fully_conditioned_likelihood_keeps_the_name', getattr(cw, 'name', None) == 'w', note=str(getattr(cw, 'name', None)))
+
+
 def conditioning_after_evaluation(c):
     """a model whose domain geometry and a prior whose geometry are two equally configured objects: conditioning the joint on data gives the same kind of object,
     evaluating to the same values, before and after a draw of the prior has been pushed through the model (evaluation only)"""
@@ -381,6 +415,7 @@ def jobs(tier):
     J.append(Job('frame:BayesianProblem.sample_prior_leaves_the_problem_unchanged', problem_sample_prior, 'B', ['cuqi.problem._problem:BayesianProblem.sample_prior'], nnum=1))
     J.append(Job('frame:model_application_and_reconditioning', model_application, 'Pbox', FL))
     J.append(Job('frame:shared_geometry_object', shared_geometry, 'Pbox', ['cuqi.distribution._distribution:Distribution.geometry']))
+    J.append(Job('names:lazily_named_originals_and_their_fully_conditioned_copies', lazily_named, 'B', ['cuqi.distribution._distribution:Distribution.to_likelihood', 'cuqi.density._density:Density.name', 'cuqi.distribution._distribution:Distribution._condition'], nnum=2))
     J.append(Job('history:conditioning_after_a_model_was_evaluated_on_a_draw', conditioning_after_evaluation, 'B', ['cuqi.distribution._distribution:Distribution.geometry', 'cuqi.geometry._geometry:Geometry._all_values_equal'], nnum=1))
     for layout in ('C', 'F', 'transposed_view'):
         J.append(Job(f'frame:Gaussian.sample:full_dense_matrix_parameter:memory_layout={layout}', lambda c, l=layout: sampling_leaves_matrix_parameters_intact(c, l), 'B', ['cuqi.distribution._gaussian:Gaussian._sample'], nnum=2))
